@@ -45,6 +45,9 @@ CHECKS = {
  "C11": dict(cat="model_checking", ref="§3 C11",
    text="Honest world: for every secret pair (empty, equal, case / last-bit / NUL-suffix / prefix differences, 1000-byte, binary) × question × initiator × version, explicit-state exploration of all interleavings of the SMP steps, the answer, chat texts either way (key rotation) and a clock tick, with one or two back-to-back runs: success on both sides iff the secrets are byte-equal, the mismatch reported on the right sides, the secret asked for once per run, no text lost. Relay world: two separately keyed sessions with a relay forwarding every SMP TLV (attacker key, and the same identities on both sessions so that only the SSID differs): never success, each run reaching a verdict.",
    tech="explicit-state model checking of the implementation (SMP interleavings) + exhaustive enumeration of relay configurations"),
+ "C12": dict(cat="model_checking", ref="§3 C12",
+   text="Victim in every SMP state in both roles (v2, v3); deviations delivered correctly authenticated through a clone of its peer: every MPI field of the genuine next message replaced by 14 boundary values, miscounts, bad length prefixes, truncations, question variants, duplicates, aborts before/after, well-formed messages of another run out of sequence; a malicious prover who recomputes the proofs over degenerate group elements (unit elements with forged SMP3/SMP4, Pb=1 Qb=0, g2a=0, g2a=p-1); explicit-state exploration of all sequences of foreign SMP messages and user calls (start, answer, abort, End). Oracle: no panic, never success, and afterwards an abort followed by a fresh honest run with equal secrets (initiated by either side) succeeds on both sides.",
+   tech="exhaustive enumeration of authenticated deviant SMP payloads per state + explicit-state exploration of message/call sequences, all on the real state machine"),
 }
 NA_REASON = "check not built yet (work in progress; see DESIGN.md §3 for the planned bounded exploration)"
 def main():
